@@ -28,11 +28,12 @@ Record st := mkSt {
   cfmax : Z;               (* cFListMaxDR *)
   up : list channel;       (* uplinkChannels *)
   down : list channel;     (* downlinkChannels *)
-  txp : list Z             (* txPowerOffsets *)
+  txp : list Z;            (* txPowerOffsets *)
+  updr : list Z            (* the keys dr of dataRates with dataRates[dr].uplink *)
 }.
 
 Definition set_up (s : st) (u : list channel) : st :=
-  mkSt (extra s) (cfmin s) (cfmax s) u (down s) (txp s).
+  mkSt (extra s) (cfmin s) (cfmax s) u (down s) (txp s) (updr s).
 
 Definition zlen {A} (l : list A) : Z := Z.of_nat (length l).
 
@@ -63,11 +64,42 @@ Inductive op :=
 | Disable (i : Z)
 | Enable (i : Z).
 
-(* band.go:334-350 *)
+(* AddChannel argument validation (fix for findings C15-8 / C15-9; before it every
+   argument was accepted, [add_channel_prefix]).  All failed checks return an error
+   and leave the tables unchanged, so their order does not matter for the model. *)
+Definition dr_defined (drs : list Z) (d : Z) : bool := existsb (Z.eqb d) drs.
+
+(* both ends are uplink data-rates of the band, min <= max, and so is every
+   data-rate in between; written with [if] so that the range is only built for
+   ends that are defined (bounded) *)
+Definition valid_dr_range (drs : list Z) (mn mx : Z) : bool :=
+  if dr_defined drs mn then
+    if dr_defined drs mx then
+      if mn <=? mx then forallb (fun k => dr_defined drs (mn + Z.of_nat k)) (seq 0 (Z.to_nat (mx - mn + 1)))
+      else false
+    else false
+  else false.
+
+(* the frequency is one NewChannelReq can carry: multiple of 100 Hz fitting 24 bits,
+   from 2.4 GHz on a multiple of 200 Hz with the halved value fitting; 0 passes *)
+Definition valid_channel_freq (f : Z) : bool :=
+  let fr := if f >=? 2400000000 then f / 2 else f in
+  (fr / 100 <? 16777216) && (f mod 100 =? 0) && negb ((f >=? 2400000000) && negb (f mod 200 =? 0)).
+
+Definition accepts (ext : bool) (drs : list Z) (f mn mx : Z) : bool :=
+  ext && valid_dr_range drs mn mx && valid_channel_freq f.
+
+(* band.go AddChannel *)
 Definition add_channel (s : st) (f mn mx : Z) : st * outcome unit :=
+  if negb (accepts (extra s) (updr s) f mn mx) then (s, Err)
+  else let c := mkChannel f mn mx (negb (f =? 0)) true in
+       (mkSt (extra s) (cfmin s) (cfmax s) (up s ++ [c]) (down s ++ [c]) (txp s) (updr s), Ok tt).
+
+(* the code before the fix: no validation *)
+Definition add_channel_prefix (s : st) (f mn mx : Z) : st * outcome unit :=
   if negb (extra s) then (s, Err)
   else let c := mkChannel f mn mx (negb (f =? 0)) true in
-       (mkSt (extra s) (cfmin s) (cfmax s) (up s ++ [c]) (down s ++ [c]) (txp s), Ok tt).
+       (mkSt (extra s) (cfmin s) (cfmax s) (up s ++ [c]) (down s ++ [c]) (txp s) (updr s), Ok tt).
 
 (* band.go:402-416 (fixed: [channel < 0 ||] added to the guard) *)
 Definition set_enabled_index (v : bool) (s : st) (i : Z) : st * outcome unit :=
